@@ -347,8 +347,8 @@ def autodiscover_units():
         havoc_mapping(lc)
         cur["h"].trace = keep       # the commands of the current device stay on record
 
-    loops = {(AUTO, 0): LoopSpec("scan-addresses", outer_inv, havoc_mapping),
-             (AUTO, 1): LoopSpec("scan-instances", inner_inv, inner_havoc)}
+    loops = {(AUTO, 0): LoopSpec("scan-addresses", outer_inv, havoc_mapping, anchor=("QueryNumberOfInstances",)),
+             (AUTO, 1): LoopSpec("scan-instances", inner_inv, inner_havoc, anchor=("QueryInstanceType",))}
 
     def r_auto(ctx, interp, fn):
         bus = ScanBus(ctx, interp)
@@ -387,6 +387,48 @@ def autodiscover_units():
 
     out.append(Unit("C13/autodiscover/default-range", "C13", None, None, use=[u for u in USE if "get_type" not in u],
                     width=72, kind="custom", runner=r_auto, loops=loops, max_paths=100000))
+
+    # bounded stand-in next to the loop rule (labelled bounded, never counted as proved): the scan of a small address
+    # range with few instances per device, both loops unrolled - no loop specification involved, so it still decides,
+    # with an input that replays, when the scan has been restructured beyond what the specifications follow
+    class SmallBus(ScanBus):
+        def __init__(self, ctx, interp, lo, hi, max_inst):
+            ScanBus.__init__(self, ctx, interp)
+            self.max_inst = max_inst
+            ctx.assume(And(self.A >= lo, self.A <= hi, self.n <= max_inst, self.I < max_inst))
+
+        def _arbitrary(self, hi=255):
+            return ScanBus._arbitrary(self, min(hi, self.max_inst) if hi == 32 else hi)
+
+    for name, arg, lo, hi, max_inst in (("one-device", 1, 0, 0, 3), ("two-devices", (62, 63), 62, 63, 1)):
+        def r_small(ctx, interp, fn, arg=arg, lo=lo, hi=hi, max_inst=max_inst):
+            bus = SmallBus(ctx, interp, lo, hi, max_inst)
+            present0 = ctx.bool("present0")
+            m0 = ctx.int("m0", 0, 255)
+            if ctx.native:
+                real = {(bus.A, bus.I): m0} if present0 else {}
+                mapper = ctx.new(H.DeviceInstanceTypeMapper, _mapping=real)
+            else:
+                mapper = ctx.new(H.DeviceInstanceTypeMapper, _mapping=AssocDict([((bus.A, bus.I), m0)] if present0 else []))
+            h = Harness(ctx, interp, bus)
+            cur.update(bus=bus, mapper=mapper, h=h, interp=interp, present0=present0, m0=m0)
+            out = h.run(H.DeviceInstanceTypeMapper.autodiscover, mapper, arg)
+            ctx.cover()
+            ctx.prove("never-an-unrelated-exception", out[0] == "return", detail="outcome %r" % (out[:3],))
+            tr = h.trace
+            ctx.prove("starts-in-quiescent-mode", bool(tr) and type_of(tr[0]) is D.StartQuiescentMode
+                      and is_instance(tr[0].destination, A.DeviceBroadcast))
+            ctx.prove("ends-by-leaving-quiescent-mode", bool(tr) and type_of(tr[-1]) is D.StopQuiescentMode
+                      and is_instance(tr[-1].destination, A.DeviceBroadcast))
+            if ctx.native:
+                want = bus.type if bus.recorded() else (m0 if present0 else None)
+                ctx.prove("records-exactly-the-enabled-instances-of-healthy-devices", real.get((bus.A, bus.I)) == want,
+                          detail="map entry %r, expected %r" % (real.get((bus.A, bus.I)), want))
+            else:
+                ctx.prove("records-exactly-the-enabled-instances-of-healthy-devices", inv_holds(True))
+            ctx.prove("only-scan-commands", len(bus.unexpected) == 0, detail=repr(bus.unexpected))
+        out.append(Unit("C13/autodiscover-bounded/" + name, "C13", None, None, use=[u for u in USE if "get_type" not in u],
+                        width=72, kind="custom", runner=r_small, loops={}, max_paths=100000))
     return out
 
 
